@@ -1107,7 +1107,10 @@ class Engine:
         from .world import digest
 
         return {
-            "oplog": digest([[ob["res"], ob["got"]] for ob in self.obs]),
+            # (events of one operation are sorted in the digest: the order of the events of one
+            # binding -- e.g. #loop_a / #loop_b of a multi-target loop -- is unspecified and follows
+            # the hash seed; the verdict compares them as multisets)
+            "oplog": digest([[ob["res"], {k: sorted(v, key=_key) for k, v in ob["got"].items()}] for ob in self.obs]),
             "viol": viol,
             "foreign": [[v[0], v[1]] for v in foreign],
             "herr": self.harness_err,
